@@ -317,6 +317,13 @@ pub fn args_for(rng: &mut Rng, kind: usize, t: Tup, other: Tup) -> Vec<i64> {
     "TERM.next" => vec![t.y, rng.range(0, 23), rng.range(-50, 50)],
     "JD" => vec![rng.range(1721424, 5373484), rng.range(0, 999)],
     "CYCLE" => vec![rng.range(0, 7), rng.range(-70, 200)],
+    "SW" => vec![t.y, am, rng.range(0, 5), rng.range(0, 6)],
+    "SW.next" => vec![t.y, am, rng.range(0, 3), rng.range(0, 6), rng.range(-60, 60)],
+    "SM.days" => vec![t.y, am, rng.range(-14, 14)],
+    "SS" => vec![t.y, rng.range(0, 3), rng.range(-9, 9)],
+    "TABOO" | "TABOO.hour" => vec![rng.range(0, 59), rng.range(0, 59)],
+    "PROVIDER" => vec![rng.range(0, 3), t.y, am, t.d.min(28).max(1), t.h, t.mi, t.s, rng.range(0, 1)],
+    "STAR" => vec![rng.range(0, 4), if rng.chance(1, 2) { t.y } else { rng.range(-30, 90) }],
     other => panic!("args_for: unknown kind {}", other),
   }
 }
